@@ -16,7 +16,6 @@ import (
 	"path/filepath"
 	"reflect"
 	"regexp"
-	"slices"
 	"sort"
 	"strconv"
 	"strings"
@@ -393,11 +392,11 @@ func (c *RootConfig) Initialize(ctx context.Context) error {
 		pkgLog.Debug().Msg("package marked as recursive")
 		verifhook.Emit("Recursive", "pkg", recursivePackageName)
 
-		subpkgs, err := c.subPackages(recursivePackageName)
+		subpkgs, hasOwnGoFiles, err := c.subPackages(recursivePackageName)
 		if err != nil {
 			return fmt.Errorf("discovering sub packages of %s: %w", recursivePackageName, err)
 		}
-		if len(subpkgs) > 0 && !slices.Contains(subpkgs, recursivePackageName) {
+		if len(subpkgs) > 0 && !hasOwnGoFiles {
 			if c.containers == nil {
 				c.containers = map[string]struct{}{}
 			}
@@ -430,12 +429,23 @@ func (c *RootConfig) Initialize(ctx context.Context) error {
 	return nil
 }
 
-func (c *RootConfig) subPackages(pkgPath string) ([]string, error) {
+// subPackages returns the packages at or below pkgPath that have Go files, and
+// whether pkgPath's own directory holds any Go file at all, including files that
+// the default build constraints exclude (they may be selected by build-tags).
+// pkgPath is also named literally because a "..." pattern silently drops a
+// package all of whose files are excluded.
+func (c *RootConfig) subPackages(pkgPath string) ([]string, bool, error) {
 	pkgs, err := packages.Load(&packages.Config{
 		Mode: packages.NeedName | packages.NeedFiles,
-	}, pkgPath+"/...")
+	}, pkgPath, pkgPath+"/...")
 	if err != nil {
-		return nil, fmt.Errorf("failed to load packages: %w", err)
+		return nil, false, fmt.Errorf("failed to load packages: %w", err)
+	}
+	hasOwnGoFiles := false
+	for _, pkg := range pkgs {
+		if pkg.PkgPath == pkgPath && len(pkg.GoFiles)+len(pkg.IgnoredFiles) > 0 {
+			hasOwnGoFiles = true
+		}
 	}
 
 	convertPkgPath := func(pkgs []*packages.Package) []string {
@@ -449,7 +459,7 @@ func (c *RootConfig) subPackages(pkgPath string) ([]string, error) {
 		return paths
 	}
 
-	return convertPkgPath(pkgs), nil
+	return convertPkgPath(pkgs), hasOwnGoFiles, nil
 }
 
 func (c *RootConfig) GetPackageConfig(ctx context.Context, pkgPath string) (*PackageConfig, error) {
